@@ -417,12 +417,16 @@ func c06Child(a *ChildArgs) {
 			{"replace-into", "REPLACE INTO t (a, b) VALUES (1, 'x'), (2, f(c))"}, {"replace-into-no-columns", "REPLACE INTO s1.t VALUES (1)"},
 			{"show-tables", "SHOW TABLES"}, {"show-tables-from", "SHOW TABLES FROM db1"}, {"show-databases", "SHOW DATABASES"}, {"show-create-table", "SHOW CREATE TABLE s1.t"},
 			{"show-create-view", "SHOW CREATE VIEW v"}, {"show-columns", "SHOW COLUMNS FROM t"}, {"show-index", "SHOW INDEX FROM t"}, {"show-keys", "SHOW KEYS FROM t"}, {"show-status", "SHOW STATUS"},
-			{"show-in-script", "SHOW TABLES; SELECT 1; SHOW VARIABLES"}, {"describe", "DESCRIBE t"}, {"describe-qualified", "DESC s1.t"},
+			{"show-in-script", "SHOW TABLES; SELECT 1; SHOW VARIABLES"}, {"describe", "DESCRIBE t"}, {"describe-qualified", "DESCRIBE s1.t"}, {"explain-table", "EXPLAIN t"},
 			{"on-duplicate-key", "INSERT INTO t (a, b) VALUES (1, 2) ON DUPLICATE KEY UPDATE b = b + 1, a = 3"}, {"on-duplicate-key-select", "INSERT INTO t (a) SELECT x FROM u ON DUPLICATE KEY UPDATE a = 0"},
 			{"cast-array-op", "SELECT a::int[], b::text[] FROM t"}, {"cast-array-fn", "SELECT CAST(a AS INT[]) FROM t"},
 			{"subscript-after-cast", "SELECT (x::int[])[1], (y::text[])[2:3][1] FROM t"}, {"subscript-after-constructor", "SELECT (ARRAY[1, 2])[1], (f(a))[2], (b || c)[1:2] FROM t"},
 			{"string-with-nul", "SELECT 'a\x00b' FROM t"}, {"string-with-ctrl-z", "SELECT 'a\x1ab', 'c\x01\x7fd' FROM t"}, {"string-with-escapes", "INSERT INTO t (a) VALUES ('tab\\tnl\\ncr\\rbs\\\\q''x')"},
 		} {
+			if _, err := gosqlx.Parse(ex.sql); err != nil {
+				a.Rec.Inconclusive("C06/extra/"+ex.name+"/rejected", "the hand-written statement is not accepted: "+firstLine(err.Error()))
+				continue
+			}
 			c06One(a, "C06/extra/"+ex.name, ex.sql, false, i)
 		}
 	}
